@@ -8,7 +8,7 @@ use vcommon::{Ctx, Verdict};
 fn check_raw(case: &raw::Case) -> Verdict {
     // VERIF_TRACE_RT=1: print the runtime's own tracing events (debugging aid for replays)
     let obs = if std::env::var("VERIF_TRACE_RT").is_ok() {
-        let sub = tracing_subscriber::fmt().with_max_level(tracing::Level::TRACE).with_writer(std::io::stderr).without_time().finish();
+        let sub = tracing_subscriber::fmt().with_max_level(tracing::Level::TRACE).with_writer(std::io::stderr).without_time().with_ansi(false).finish();
         tracing::subscriber::with_default(sub, || raw::execute(case))
     } else {
         raw::execute(case)
